@@ -1,7 +1,5 @@
-import Gtree.Generated.SourceHeap
-import Gtree.Model.Grow
-import Gtree.Lemmas.Validate
-import Gtree.Lemmas.SourceRefines
+import Gtree.Generated.Heap.Grower
+import Gtree.Lemmas.HeapRepr
 /-
   The grower of the source (simple_tree_grower.go, with the methods of node.go it calls), translated over an
   explicit heap by /verif/translate (heap mode), IS the model's grower: for every heap that holds a tree — names,
@@ -11,96 +9,6 @@ import Gtree.Lemmas.SourceRefines
 -/
 namespace Gtree.SrcH
 open Gtree Gtree.Go
-
-/-- the branch strings the grower holds, as the model's `Fmt` -/
-def fmtOf (dg : defaultGrowerSimple) : Fmt :=
-  { lastD := dg.lastNodeFormat.directly, lastI := dg.lastNodeFormat.indirectly,
-    midD := dg.intermedialNodeFormat.directly, midI := dg.intermedialNodeFormat.indirectly }
-
-/-- every write of the grower: the `brnch` field of one cell -/
-def setBr (h : Heap) (n : Ptr) (b : Src.branch) : Heap := Heap.set h n { (h n) with brnch := b }
-
-@[simp] theorem setBr_self (h : Heap) (n : Ptr) (b : Src.branch) :
-    (setBr h n b) n = { (h n) with brnch := b } := by simp [setBr, Heap.set]
-
-theorem setBr_other (h : Heap) (n q : Ptr) (b : Src.branch) (hq : q ≠ n) : (setBr h n b) q = h q := by
-  simp [setBr, Heap.set, hq]
-
-@[simp] theorem setBr_name (h : Heap) (n q : Ptr) (b : Src.branch) : ((setBr h n b) q).name = (h q).name := by
-  unfold setBr Heap.set; split <;> simp_all
-@[simp] theorem setBr_hierarchy (h : Heap) (n q : Ptr) (b : Src.branch) :
-    ((setBr h n b) q).hierarchy = (h q).hierarchy := by
-  unfold setBr Heap.set; split <;> simp_all
-@[simp] theorem setBr_parent (h : Heap) (n q : Ptr) (b : Src.branch) : ((setBr h n b) q).parent = (h q).parent := by
-  unfold setBr Heap.set; split <;> simp_all
-@[simp] theorem setBr_children (h : Heap) (n q : Ptr) (b : Src.branch) :
-    ((setBr h n b) q).children = (h q).children := by
-  unfold setBr Heap.set; split <;> simp_all
-@[simp] theorem setBr_brnch_self (h : Heap) (n : Ptr) (b : Src.branch) : ((setBr h n b) n).brnch = b := by simp
-
-@[simp] theorem setBr_setBr (h : Heap) (n : Ptr) (b b' : Src.branch) : setBr (setBr h n b) n b' = setBr h n b' := by
-  funext q
-  by_cases hq : q = n
-  · subst hq; simp
-  · simp [setBr_other _ _ _ _ hq]
-
-theorem add_bytes (a b : Bytes) : a + b = a ++ b := rfl
-
-theorem setBranch_eq (h : Heap) (n : Ptr) (xs : List Bytes) :
-    Node.setBranch h n xs = setBr h n { (h n).brnch with value := xs.flatten } := by
-  have key : ∀ (xs : List Bytes) (acc : Bytes),
-      Go.forRange xs (h, acc) (fun v (st_ : Heap × Bytes) => (Go.Ctl.next (st_.1, st_.2 ++ v) : Go.Ctl (Heap × Bytes) Heap))
-        = Go.Ctl.next (h, acc ++ xs.flatten) := by
-    intro xs
-    induction xs with
-    | nil => intro acc; simp [Go.forRange]
-    | cons x xs ih => intro acc; simp [Go.forRange, ih, List.append_assoc]
-  have := key xs []
-  simp only [List.nil_append] at this
-  show (match Go.forRange xs (h, ([] : Bytes)) (fun v (st_ : Heap × Bytes) =>
-      (Go.Ctl.next (st_.1, st_.2 ++ v) : Go.Ctl (Heap × Bytes) Heap)) with
-    | Go.Ctl.ret r_ => r_
-    | Go.Ctl.brk st_ | Go.Ctl.next st_ => Heap.set st_.1 n { (st_.1 n) with brnch := { (st_.1 n).brnch with value := st_.2 } }) = _
-  rw [this]
-  rfl
-
-theorem setPath_eq (h : Heap) (n : Ptr) (xs : List Bytes) :
-    Node.setPath h n xs = setBr h n { (h n).brnch with path := pathJoin xs } := by
-  simp [Node.setPath, setBr, Go.path_Join]
-
-theorem pathJoin_empty : pathJoin [([] : Bytes)] = [] := by decide
-
-theorem clean_eq (h : Heap) (n : Ptr) : Node.clean h n = setBr h n ⟨[], []⟩ := by
-  simp [Node.clean, setBranch_eq, setPath_eq, pathJoin_empty]
-
-/-- `isLastOfHierarchy` reads parent links and child lists only -/
-theorem isLast_setBr (h : Heap) (n q : Ptr) (b : Src.branch) :
-    Node.isLastOfHierarchy (setBr h n b) q = Node.isLastOfHierarchy h q := by
-  simp [Node.isLastOfHierarchy]
-
-theorem isRoot_setBr (h : Heap) (n q : Ptr) (b : Src.branch) : Node.isRoot (setBr h n b) q = Node.isRoot h q := by
-  simp [Node.isRoot]
-
-/-- `Up h root q anc`: following the parent links from `q` one meets the ancestors `anc` strictly below the root
-    (nearest first: name, and whether the ancestor is its parent's last child) and then the root -/
-def Up (h : Heap) (root : Ptr) : Ptr → List Anc → Prop
-  | q, [] => q = root ∧ root ≠ 0 ∧ (h root).hierarchy = 1
-  | q, a :: anc => q ≠ 0 ∧ (h q).hierarchy ≠ 1 ∧ (h q).name = a.1 ∧ Node.isLastOfHierarchy h q = a.2 ∧
-      Up h root (h q).parent anc
-
-theorem Up_setBr (h : Heap) (root n : Ptr) (b : Src.branch) :
-    ∀ (anc : List Anc) (q : Ptr), Up (setBr h n b) root q anc ↔ Up h root q anc
-  | [], q => by simp [Up]
-  | a :: anc, q => by simp [Up, isLast_setBr, Up_setBr h root n b anc]
-
-theorem Up_ne_zero (h : Heap) (root : Ptr) : ∀ (anc : List Anc) (q : Ptr), Up h root q anc → q ≠ 0
-  | [], q, hu => by obtain ⟨rfl, h0, _⟩ := hu; exact h0
-  | _ :: _, q, hu => hu.1
-
-theorem Up_root (h : Heap) (root : Ptr) : ∀ (anc : List Anc) (q : Ptr), Up h root q anc →
-    root ≠ 0 ∧ (h root).hierarchy = 1
-  | [], q, hu => ⟨hu.2.1, hu.2.2⟩
-  | _ :: anc, q, hu => Up_root h root anc _ hu.2.2.2.2
 
 theorem indirect_eq (dg : defaultGrowerSimple) (h : Heap) (cur q : Ptr) (b : Src.branch)
     (hc0 : cur ≠ 0) (hcl : (h cur).hierarchy ≠ 1) (hq0 : q ≠ 0) :
@@ -205,176 +113,6 @@ theorem assembleBranch_root (dg : defaultGrowerSimple) (h : Heap) (cur : Ptr) (f
   simp only [hdirect, setBr_parent, hpar, hnil, bne_self_eq_false, Bool.false_eq_true, if_false,
     defaultGrowerSimple.assembleBranchFinally, beq_iff_eq, hc0]
   cases dg.enabledValidation <;> simp
-
-/-! ### heaps that hold a tree -/
-
-/-- `h'` has the shape of `h`: names, levels, parent links and child lists agree (branches and paths may differ) -/
-def SameShape (h h' : Heap) : Prop :=
-  ∀ q, (h' q).name = (h q).name ∧ (h' q).hierarchy = (h q).hierarchy ∧ (h' q).parent = (h q).parent ∧
-    (h' q).children = (h q).children
-
-theorem SameShape.refl (h : Heap) : SameShape h h := fun _ => ⟨rfl, rfl, rfl, rfl⟩
-theorem SameShape.trans {h h' h'' : Heap} (a : SameShape h h') (b : SameShape h' h'') : SameShape h h'' := fun q =>
-  ⟨(b q).1.trans (a q).1, (b q).2.1.trans (a q).2.1, (b q).2.2.1.trans (a q).2.2.1, (b q).2.2.2.trans (a q).2.2.2⟩
-theorem SameShape.setBr (h : Heap) (n : Ptr) (b : Src.branch) : SameShape h (setBr h n b) := fun q => by simp
-
-theorem isLast_shape {h h' : Heap} (s : SameShape h h') (q : Ptr) :
-    Node.isLastOfHierarchy h' q = Node.isLastOfHierarchy h q := by
-  simp [Node.isLastOfHierarchy, (s q).2.2.1, (s (h q).parent).2.2.2]
-
-theorem Up_shape {h h' : Heap} (s : SameShape h h') (root : Ptr) :
-    ∀ (anc : List Anc) (q : Ptr), Up h' root q anc ↔ Up h root q anc
-  | [], q => by simp [Up, (s root).2.1]
-  | a :: anc, q => by simp [Up, isLast_shape s, Up_shape s root anc, (s q).1, (s q).2.1, (s q).2.2.1]
-
-mutual
-/-- the heap holds the tree `t` at pointer `p`, whose parent pointer is `par` and whose level is `lvl` -/
-def Repr (h : Heap) : T → Ptr → Ptr → Nat → Prop
-  | .mk n ks, p, par, lvl => p ≠ 0 ∧ (h p).name = n ∧ (h p).hierarchy = (lvl : Int) ∧ (h p).parent = par ∧
-      ReprKids h ks (h p).children p (lvl + 1)
-def ReprKids (h : Heap) : List T → List Ptr → Ptr → Nat → Prop
-  | [], cs, _, _ => cs = []
-  | t :: ts, cs, par, lvl => ∃ c cs', cs = c :: cs' ∧ Repr h t c par lvl ∧ ReprKids h ts cs' par lvl
-end
-
-mutual
-/-- the pointers of the nodes of the tree held at `p`, pre-order -/
-def ptrs (h : Heap) : T → Ptr → List Ptr
-  | .mk _ ks, p => p :: ptrsKids h ks (h p).children
-def ptrsKids (h : Heap) : List T → List Ptr → List Ptr
-  | [], _ => []
-  | _ :: _, [] => []
-  | t :: ts, c :: cs => ptrs h t c ++ ptrsKids h ts cs
-end
-
-mutual
-/-- what the walker, the printers and the mkdirer read from the nodes of the tree held at `p`, pre-order -/
-def readNode (h : Heap) : T → Ptr → Nat → List Visit
-  | .mk _ ks, p, lvl =>
-    { name := (h p).name, branch := Node.branch h p, level := lvl, path := Node.path h p, hasChild := Node.hasChild h p }
-      :: readKids h ks (h p).children (lvl + 1)
-def readKids (h : Heap) : List T → List Ptr → Nat → List Visit
-  | [], _, _ => []
-  | _ :: _, [], _ => []
-  | t :: ts, c :: cs, lvl => readNode h t c lvl ++ readKids h ts cs lvl
-end
-
-mutual
-theorem Repr_shape {h h' : Heap} (s : SameShape h h') : ∀ (t : T) (p par : Ptr) (lvl : Nat),
-    Repr h t p par lvl → Repr h' t p par lvl
-  | .mk n ks, p, par, lvl, hr => by
-    rw [Repr] at hr ⊢
-    obtain ⟨h0, hn, hl, hp, hk⟩ := hr
-    refine ⟨h0, (s p).1.trans hn, (s p).2.1.trans hl, (s p).2.2.1.trans hp, ?_⟩
-    rw [(s p).2.2.2]
-    exact ReprKids_shape s ks _ p (lvl + 1) hk
-theorem ReprKids_shape {h h' : Heap} (s : SameShape h h') : ∀ (ts : List T) (cs : List Ptr) (par : Ptr) (lvl : Nat),
-    ReprKids h ts cs par lvl → ReprKids h' ts cs par lvl
-  | [], cs, par, lvl, hr => by rw [ReprKids] at hr ⊢; exact hr
-  | t :: ts, cs, par, lvl, hr => by
-    rw [ReprKids] at hr ⊢
-    obtain ⟨c, cs', rfl, h1, h2⟩ := hr
-    exact ⟨c, cs', rfl, Repr_shape s t c par lvl h1, ReprKids_shape s ts cs' par lvl h2⟩
-end
-
-mutual
-theorem ptrs_shape {h h' : Heap} (s : SameShape h h') : ∀ (t : T) (p : Ptr), ptrs h' t p = ptrs h t p
-  | .mk n ks, p => by rw [ptrs, ptrs, (s p).2.2.2, ptrsKids_shape s ks]
-theorem ptrsKids_shape {h h' : Heap} (s : SameShape h h') : ∀ (ts : List T) (cs : List Ptr),
-    ptrsKids h' ts cs = ptrsKids h ts cs
-  | [], cs => by rw [ptrsKids, ptrsKids]
-  | _ :: _, [] => by rw [ptrsKids, ptrsKids]
-  | t :: ts, c :: cs => by rw [ptrsKids, ptrsKids, ptrs_shape s t c, ptrsKids_shape s ts cs]
-end
-
-mutual
-/-- reading a tree depends on the cells of its own nodes only -/
-theorem readNode_congr {h h' : Heap} : ∀ (t : T) (p : Ptr) (lvl : Nat), (∀ q ∈ ptrs h t p, h' q = h q) →
-    readNode h' t p lvl = readNode h t p lvl
-  | .mk n ks, p, lvl, hq => by
-    have hp : h' p = h p := hq p (by rw [ptrs]; simp)
-    rw [readNode, readNode]
-    have hk := readKids_congr ks (h p).children (lvl + 1) (fun q hq' => hq q (by rw [ptrs]; simp [hq']))
-    simp [Node.branch, Node.path, Node.isRoot, Node.hasChild, hp, hk]
-theorem readKids_congr {h h' : Heap} : ∀ (ts : List T) (cs : List Ptr) (lvl : Nat),
-    (∀ q ∈ ptrsKids h ts cs, h' q = h q) → readKids h' ts cs lvl = readKids h ts cs lvl
-  | [], cs, lvl, _ => by rw [readKids, readKids]
-  | _ :: _, [], lvl, _ => by rw [readKids, readKids]
-  | t :: ts, c :: cs, lvl, hq => by
-    rw [readKids, readKids,
-      readNode_congr t c lvl (fun q hq' => hq q (by rw [ptrsKids]; simp [hq'])),
-      readKids_congr ts cs lvl (fun q hq' => hq q (by rw [ptrsKids]; simp [hq']))]
-end
-
-/-- the children's pointers are among the pointers of the children's trees, in order -/
-theorem kids_sublist (h : Heap) : ∀ (ts : List T) (cs : List Ptr) (par : Ptr) (lvl : Nat),
-    ReprKids h ts cs par lvl → cs.Sublist (ptrsKids h ts cs)
-  | [], cs, par, lvl, hr => by rw [ReprKids] at hr; subst hr; simp
-  | .mk n ks :: ts, cs, par, lvl, hr => by
-    rw [ReprKids] at hr
-    obtain ⟨c, cs', rfl, _, h2⟩ := hr
-    rw [ptrsKids, ptrs]
-    exact List.Sublist.cons₂ c (List.Sublist.trans (kids_sublist h ts cs' par lvl h2) (List.sublist_append_right _ _))
-
-theorem readKids_length_eq (h : Heap) : ∀ (ts : List T) (cs : List Ptr) (par : Ptr) (lvl : Nat),
-    ReprKids h ts cs par lvl → cs.length = ts.length
-  | [], cs, par, lvl, hr => by rw [ReprKids] at hr; subst hr; rfl
-  | t :: ts, cs, par, lvl, hr => by
-    rw [ReprKids] at hr
-    obtain ⟨c, cs', rfl, _, h2⟩ := hr
-    simp [readKids_length_eq h ts cs' par lvl h2]
-
-/-! ### the recursion -/
-
-theorem idxPtr_last (xs : List Ptr) (hne : xs ≠ []) : Go.idxPtr xs (Go.len xs - 1) = xs.getLast hne := by
-  have hl : 0 < xs.length := List.length_pos_iff.mpr hne
-  unfold Go.idxPtr Go.len
-  have h1 : ¬ ((Int.ofNat xs.length - 1) < 0) := by simp only [Int.ofNat_eq_natCast]; omega
-  rw [if_neg h1]
-  have h2 : (Int.ofNat xs.length - 1).toNat = xs.length - 1 := by simp only [Int.ofNat_eq_natCast]; omega
-  rw [h2, List.getD_eq_getElem?_getD, List.getLast_eq_getElem, List.getElem?_eq_getElem (by omega)]
-  rfl
-
-/-- "is the last child" is decided by identity of pointers; with pairwise different children it is the position -/
-theorem isLast_child (h : Heap) (c par : Ptr) (pre cs' : List Ptr) (hpar : (h c).parent = par) (hp0 : par ≠ 0)
-    (hch : (h par).children = pre ++ c :: cs') (hnd : ((h par).children).Nodup) :
-    Node.isLastOfHierarchy h c = cs'.isEmpty := by
-  have hnil : Go.nilPtr = 0 := rfl
-  unfold Node.isLastOfHierarchy
-  simp only [hpar, hnil, beq_iff_eq, hp0, if_false]
-  rw [idxPtr_last _ (by rw [hch]; simp)]
-  cases cs' with
-  | nil => simp [hch]
-  | cons d ds =>
-    simp only [hch, List.isEmpty_cons, beq_eq_false_iff_ne, ne_eq]
-    rw [hch] at hnd
-    intro he
-    have hmem : c ∈ d :: ds := by
-      have : (pre ++ c :: d :: ds).getLast (by simp) = (d :: ds).getLast (by simp) := by
-        rw [List.getLast_append_of_ne_nil _ (by simp), List.getLast_cons (by simp)]
-      rw [this] at he
-      rw [he]; exact List.getLast_mem _
-    have := (List.nodup_append.mp hnd).2.1
-    rw [List.nodup_cons] at this
-    exact this.1 hmem
-
-/-- `Node.validatePath` on a cell is the model's `validateVisit` of what the walker would read from it -/
-theorem validatePath_heap (h : Heap) (p : Ptr) (v : Visit) (hn : (h p).name = v.name)
-    (hp : Node.path h p = v.path) (hroot : v.level = 1 → v.path = v.name) :
-    Node.validatePath h p = (validateVisit v).map verrSrc := by
-  rw [← validatePath_src v hroot]
-  have hpath : Src.Node.path (visitNode v) = v.path := by
-    unfold Src.Node.path Src.Node.isRoot visitNode
-    simp only [Src.rootHierarchyNum]
-    by_cases h1 : v.level = 1
-    · have : (((v.level : Nat) : Int) == 1) = true := by rw [h1]; rfl
-      simp [this, hroot h1]
-    · have : (((v.level : Nat) : Int) == 1) = false := by
-        simp only [beq_eq_false_iff_ne, ne_eq]; omega
-      simp [this]
-  unfold Node.validatePath Src.Node.validatePath
-  rw [hpath, hp, hn]
-  rfl
 
 /-- the error the grower returns for these nodes: the first validation failure in pre-order, when validation is on -/
 def expErr (dg : defaultGrowerSimple) (vs : List Visit) : Option Src.Err :=
@@ -673,11 +411,6 @@ theorem assemble_root (dg : defaultGrowerSimple) (t : T) (h : Heap) (r : Ptr) (f
 
 /-! ### a forest: `grow` over the roots -/
 
-/-- the heap holds the forest `ts` at the root pointers `rs` -/
-def ReprRoots (h : Heap) : List T → List Ptr → Prop
-  | [], rs => rs = []
-  | t :: ts, rs => ∃ r rs', rs = r :: rs' ∧ Repr h t r 0 1 ∧ ReprRoots h ts rs'
-
 /-- the body of the loop of `grow` over the roots -/
 def rootsBody (dg : defaultGrowerSimple) (fuel : Nat) : Ptr → Heap → Go.Ctl Heap (Option (Heap × Option Src.Err)) :=
   fun root st_ =>
@@ -693,13 +426,6 @@ theorem grow_unfold (fuel : Nat) (h : Heap) (dg : defaultGrowerSimple) (rs : Lis
        | Go.Ctl.ret r_ => r_
        | Go.Ctl.brk st_ | Go.Ctl.next st_ => some (st_, none)) := by
   rfl
-
-theorem ReprRoots_shape {h h' : Heap} (s : SameShape h h') : ∀ (ts : List T) (rs : List Ptr),
-    ReprRoots h ts rs → ReprRoots h' ts rs
-  | [], rs, hr => hr
-  | t :: ts, rs, hr => by
-    obtain ⟨r, rs', rfl, h1, h2⟩ := hr
-    exact ⟨r, rs', rfl, Repr_shape s t r 0 1 h1, ReprRoots_shape s ts rs' h2⟩
 
 theorem grow_loop (dg : defaultGrowerSimple) : ∀ (ts : List T) (h : Heap) (rs : List Ptr) (fuel : Nat),
     ReprRoots h ts rs → (ptrsKids h ts rs).Nodup → 2 * sizeList ts + 1 ≤ fuel →
